@@ -18,13 +18,16 @@ class Discard(Exception):
     """The reference evaluation itself fails / exceeds its bound: the case is not judged."""
 
 
-def reference_run(prog, script, step_bound=4000):
+def reference_run(prog, script, step_bound=4000, templates=None):
     ref = hl.DirectEval(script, step_bound=step_bound)
+    ref.templates = dict(templates or {})
     snaps = []
     try:
         for seg in hl.segments(prog):
             ref.run_segment(seg)
-            snaps.append({"arrays": copy.deepcopy(ref.arrays), "regs": dict(ref.regs), "trace_len": len(ref.trace)})
+            live = [q for q, alive in ref.qubits.items() if alive]
+            snaps.append({"arrays": copy.deepcopy(ref.arrays), "regs": dict(ref.regs), "trace_len": len(ref.trace),
+                          "live": live, "state": ref.sv.vector(live).copy()})
     except hl.HostFault as e:
         raise Discard(f"host fault: {e}")
     except hl.StepBound:
@@ -41,6 +44,8 @@ def map_trace(ref_trace, qid):
     for t in ref_trace:
         if t[0] == "cnot":
             out.append(("cnot", qid[t[1]], qid[t[2]]))
+        elif t[0].startswith("rot_"):
+            out.append((t[0], qid[t[1]], t[2], t[3]))
         elif t[0] == "meas":
             out.append(("meas", qid[t[1]], t[2]))
         else:
@@ -50,12 +55,13 @@ def map_trace(ref_trace, qid):
 
 def run_differential(prog, script, fail: Callable[[str, Optional[str]], None], count: Callable[[str, int], None],
                      pipe_kw=None, compare_trace=True, on_segment=None, on_top=None, step_bound=4000,
-                     check_host_handles=True):
+                     check_host_handles=True, templates=None, segment_modes=None, after_close=None):
     """Returns dict with 'nontrivial' info. `fail(what, key)` reports a violation."""
-    ref, snaps = reference_run(prog, script, step_bound)
+    ref, snaps = reference_run(prog, script, step_bound, templates)
     pipe = Pipe(script=script, max_qubits=5, **(pipe_kw or {}))
     drv = SdkDriver(pipe.conn)
     drv.on_top = on_top
+    drv.tmpl_values = dict(templates or {})
     ex = pipe.ex
     app = pipe.app_id
     first_read = {}
@@ -64,6 +70,7 @@ def run_differential(prog, script, fail: Callable[[str, Optional[str]], None], c
     r0 = 0
     segs = hl.segments(prog)
     ok = True
+    pending_sub = None
 
     def host_check(label, handle_key, host, expected):
         nonlocal ok
@@ -80,6 +87,8 @@ def run_differential(prog, script, fail: Callable[[str, Optional[str]], None], c
         if True:
             for si, seg in enumerate(segs):
                 drv.segment = si
+                mode = segment_modes[si] if segment_modes else "direct"
+                drv.tmpl_mode = "template" if mode in ("pre", "pre-late") else "concrete"
                 try:
                     drv.top_block(seg)
                 except hc.ControllerFault:
@@ -88,7 +97,27 @@ def run_differential(prog, script, fail: Callable[[str, Optional[str]], None], c
                     fail(f"segment {si}: the SDK could not compile a valid host program: {type(e).__name__}: {str(e)[:160]}", None)
                     return {"ok": False}
                 try:
-                    conn.flush()
+                    if pending_sub is not None:
+                        # a subroutine compiled earlier is committed only now, after more operations were queued
+                        conn.commit_subroutine(pending_sub)
+                        pending_sub = None
+                    if mode == "pre-late" and si < len(segs) - 1:
+                        sub = conn.compile()
+                        if sub is not None:
+                            sub.instantiate(conn.app_id, dict(templates or {}))
+                            pending_sub = sub
+                        count("precompiled_segments", 1)
+                        count("late_commits", 1)
+                        continue   # not executed yet: judged together with the next segment
+                    if mode in ("pre", "pre-late"):
+                        # compile without sending, fill in the template values, commit
+                        sub = conn.compile()
+                        if sub is not None:
+                            sub.instantiate(conn.app_id, dict(templates or {}))
+                            conn.commit_subroutine(sub)
+                        count("precompiled_segments", 1)
+                    else:
+                        conn.flush()
                 except hc.ControllerFault as cf:
                     key = None
                     m = re.search(r"Trying to return register (M\d+) but it does not have value", str(cf.exc))
@@ -139,6 +168,20 @@ def run_differential(prog, script, fail: Callable[[str, Optional[str]], None], c
                             fail(f"segment {si}: controller register {h.reg} (handle {name}) = {cval} but direct execution gives "
                                  f"{snap['regs'].get(name)}", key)
                             return {"ok": False, "ref": ref}
+                # (5) quantum state of the live qubits (up to global phase), ordered by host handle
+                live = snap["live"]
+                try:
+                    labels = [("p", pipe.phys_of(drv.qubits[q].qubit_id)) for q in live]
+                    got_state = ex.sv.vector(labels)
+                except Exception as e:
+                    fail(f"segment {si}: the controller's live qubits do not match the host's ({type(e).__name__}: {str(e)[:120]})", None)
+                    return {"ok": False, "ref": ref}
+                from vf.ref import quantum as rq
+                if not rq.eq_up_to_phase(got_state, snap["state"], 1e-8):
+                    fail(f"segment {si}: quantum state of the live qubits {live} differs from direct execution "
+                         f"(fidelity {rq.fidelity(got_state, snap['state']):.6f})", None)
+                    return {"ok": False, "ref": ref}
+                count("quantum_states_compared", 1)
                 # (4) every host handle created so far, read after every flush
                 if not check_host_handles:
                     if on_segment is not None:
@@ -161,6 +204,8 @@ def run_differential(prog, script, fail: Callable[[str, Optional[str]], None], c
                 if on_segment is not None:
                     on_segment(si, pipe, drv)
             conn.close()   # only on the success path: a failed flush leaves pending bookkeeping behind
+            if after_close is not None:
+                after_close(pipe, drv, ref, snaps[-1])
     except hc.ControllerFault as cf:
         fail(f"controller fault outside a flush (closing the connection): {cf}", None)
         return {"ok": False}
